@@ -1,6 +1,6 @@
 (* C05 — property theorems (statements only; proofs live in Proofs*.v). *)
 From Coq Require Import List ZArith QArith Bool Sorting.Permutation.
-Require Import QV.C05.Model QV.C05.Spec QV.C05.Param QV.C05.Proofs QV.C05.Proofs2 QV.C05.Proofs3 QV.C05.Proofs4 QV.C05.Proofs5 QV.C05.Ctors QV.C05.Proofs6 QV.C05.Proofs7 QV.C05.ProofsP QV.C05.Proofs8 QV.C05.Proofs9 QV.C05.Proofs10 QV.C05.Proofs11.
+Require Import QV.C05.Model QV.C05.Spec QV.C05.Param QV.C05.Proofs QV.C05.Proofs2 QV.C05.Proofs3 QV.C05.Proofs4 QV.C05.Proofs5 QV.C05.Ctors QV.C05.Proofs6 QV.C05.Proofs7 QV.C05.ProofsP QV.C05.Proofs8 QV.C05.Proofs9 QV.C05.Proofs10 QV.C05.Proofs11 QV.C05.Proofs12.
 Import ListNotations.
 Open Scope Z_scope.
 
@@ -28,6 +28,22 @@ Print Assumptions C05_global_transformation.
 Theorem C05_global_transformation_refuted : exists p S G, ~ transformed_play p S G.
 Proof. exists w_par, [], [TScale [(1%N, 2%Q); (2%N, 2%Q)]]. exact refute_global. Qed.
 Print Assumptions C05_global_transformation_refuted.
+
+(* the measurement windows (same list, not only the same multiset) and the duration do not depend on the global
+   transformation at all: for every template tree, every set S and every two chains G, G' - NO guard (round 5; the
+   guarded theorem above says nothing about windows) *)
+Theorem C05_global_transformation_windows : forall p S G G',
+  match compile p S G, compile p S G' with
+  | Some l, Some l' => ldur l = ldur l' /\ windows l = windows l'
+  | None, None => True
+  | _, _ => False
+  end.
+Proof. exact global_transformation_windows. Qed.
+Print Assumptions C05_global_transformation_windows.
+(* not vacuous: windows on three levels, a collapsed repetition, a channel-changing chain: a program with 5 windows *)
+Example C05_global_transformation_windows_nonvacuous :
+  exists l, compile w_windows [3%N] [TLinear [1%N] [3%N] [[2%Q]]] = Some l /\ length (windows l) = 5%nat.
+Proof. exact windows_nonvacuous. Qed.
 
 (* every compiled program is well-formed (leaves last a positive time, nodes repeat at least once and have children),
    for every template tree, set S and transformation G *)
